@@ -14,7 +14,7 @@ EXPLANATION = (
     "normal return, the key it borrows from is inserted (VacantEntry::insert), so borrower and owner never disagree; "
     "(e) the laundered value derives from the entry's own key. ensure_owned's transmute is applied to a fresh "
     "`clone()` under the true edge of `is_owned()`. Hand-written Clone/clone_from of the stores must be field-wise "
-    "(f <- f). (R10.5) the only *_unchecked operations in sophia_inmem are the audited unwrap_unchecked of the matching iterators. NOT decided: absence of UB inside std containers; that `&SimpleTerm<'static>` handed out by the stores "
+    "(f <- f). (R10.5) there is no *_unchecked operation in sophia_inmem (the audited list is empty: the unwrap_unchecked of the matching iterators rested on the contract of a safe trait and were replaced by checked expects). NOT decided: absence of UB inside std containers; that `&SimpleTerm<'static>` handed out by the stores "
     "cannot be cloned into a value outliving the store (type-level, see known finding / E4 witness).")
 
 SCOPE = ("sophia_inmem", "sophia_api")
@@ -56,22 +56,31 @@ def controls(ck):
 
 
 UNCHECKED_OK = {
-    # (function, callee suffix) -> (max count, reason)
-    ("dataset::_iter::BcdMatchingIterator::<'a, TI, BM, CM, DM>::boxed", "Option::<T>::unwrap_unchecked"):
-        (3, "term slots of a quad re-ordered from an index key: Some by construction, decided by C01 R1.2 (role propagation of the re-ordering closure)"),
-    ("dataset::_iter::CdMatchingIterator::<'a, TI, CM, DM>::boxed", "Option::<T>::unwrap_unchecked"):
-        (3, "as BcdMatchingIterator::boxed"),
+    # (function, callee suffix) -> (max count, reason).  Empty since 'fix: the matching iterators no longer rely on a safe
+    # trait's contract for memory safety': the six unwrap_unchecked of BcdMatchingIterator::boxed / CdMatchingIterator::boxed had
+    # been audited here as "Some by construction (C01 R1.2)", which holds for SimpleTermIndex only - GraphNameIndex is a safe
+    # public trait, and an implementation breaking its contract reached UB through safe calls (findings/C10_unchecked_slots.rs).
 }
+
+
+def unchecked_sites(f):
+    return [t for _, t in f.calls() if re.search(r"unchecked", t["f"].get("name") or "")
+            and not re.search(r"^sophia|::new_unchecked$|::map_unchecked$", t["f"].get("name") or "")]
 
 
 def unchecked_rule(ck, facts):
     """R10.5: the only `*_unchecked` operations of the in-memory stores are the audited ones.  An unchecked slice access,
     unwrap or str conversion turns a violated precondition into undefined behaviour that safe callers can reach (e.g.
     `get_term(i)` with an index obtained from another store)."""
+    import core
+    ck.control("R10.5", "pos_unwrap_unchecked", bool(unchecked_sites(core.fixture_fn("pos_unwrap_unchecked"))))
+    ck.control("R10.5", "neg_checked_expect", bool(unchecked_sites(core.fixture_fn("neg_checked_expect"))), expect=False)
     seen = {}
+    nfn = 0
     for f in facts.fns.values():
         if f.crate != "sophia_inmem":
             continue
+        nfn += 1
         root = f if f.kind != "Closure" else facts.fns.get(f.root, f)
         if root.impl and root.impl.get("derived"):
             continue
@@ -87,7 +96,9 @@ def unchecked_rule(ck, facts):
                        "list: a violated precondition is undefined behaviour reachable from safe code" % (root.name, n), "%s:%s" % (t["file"], t["line"]))
             else:
                 ck.ok("R10.5", "%s: %s (%s)" % (root.name, n.split("::")[-1], ent[1]), nontrivial=(seen[key] == 1))
-    ck.floor("R10.5", "audited unchecked operations in sophia_inmem", sum(seen.values()), 6)
+    if not seen:
+        ck.ok("R10.5", "no *_unchecked operation in the %d functions of sophia_inmem" % nfn)
+    ck.floor("R10.5", "functions of sophia_inmem scanned for unchecked operations", nfn, 150)
 
 
 def run(ck, facts, tier):
